@@ -577,11 +577,11 @@ def run(ctx):
                 "Replay: command scripts (crafted standard / adversarial orders + seeded random; inputs only) and TLC's own random walks, "
                 "evaluated by TLC at T = 4 with 4 bands and 2 sources; the real directory is compared after EVERY command. "
                 "distinct = distinct command history whose expected directory holds at least one tile")
-    bound = 4 if quick else 5
+    bound = 4 if quick else 6
     op_bound = 3 if quick else 4
     script_len = 6 if quick else 8
-    n_random = 25 if quick else 400
-    n_walks = 16 if quick else 200
+    n_random = 40 if quick else 400
+    n_walks = 24 if quick else 200
 
     scripts = [(name, s) for name, s in CRAFTED]
     for i in range(n_random):
@@ -610,7 +610,7 @@ def run(ctx):
         def tlc_bfs():
             name = "MCG02All"
             return ctx.tlc(name, extra={name + ".tla": mc_module(name, REGIONS3, op_bound=op_bound)},
-                           cfg_text=cfg("AllSpec", 2, "MCRegions", [0], bound, BASE_INVARIANTS + ["OperatorsBounded"]), workers=8, timeout=7200)
+                           cfg_text=cfg("AllSpec", 2, "MCRegions", [0], bound, BASE_INVARIANTS + ["OperatorsBounded"]), workers=8 if quick else 12, timeout=14400)
 
         def tlc_refute(inv):
             # breadth first, one worker: the counterexample is a shortest command sequence
